@@ -231,6 +231,21 @@ where
         }
     }
 
+    /// Checks if `symbol` can be queried: it is at most the largest symbol (plain tree)
+    /// or it occurs in the sequence (compressed tree). Always false for an empty tree.
+    #[inline(always)]
+    fn is_valid_symbol(&self, symbol: T) -> bool {
+        if COMPRESSED {
+            let index: usize = symbol.as_();
+            self.codes_encode
+                .as_ref()
+                .and_then(|codes| codes.get(index))
+                .is_some_and(|code| code.len != 0)
+        } else {
+            self.sigma.is_some_and(|sigma| symbol <= sigma)
+        }
+    }
+
     /// Returns the length of the indexed sequence.
     ///
     /// # Examples
@@ -376,18 +391,7 @@ where
 {
     #[inline(always)]
     fn rank(&self, symbol: Self::Item, i: usize) -> Option<usize> {
-        if i > self.n {
-            return None;
-        }
-
-        if !COMPRESSED && symbol > *self.sigma.as_ref().unwrap() {
-            return None;
-        }
-
-        if COMPRESSED
-            && (symbol.as_() >= self.codes_encode.as_ref().unwrap().len()
-                || self.codes_encode.as_ref().unwrap()[symbol.as_() as usize].len == 0)
-        {
+        if i > self.n || !self.is_valid_symbol(symbol) {
             return None;
         }
 
@@ -436,7 +440,7 @@ where
 {
     #[inline(always)]
     fn select(&self, symbol: Self::Item, i: usize) -> Option<usize> {
-        if COMPRESSED && self.codes_encode.as_ref().unwrap()[symbol.as_() as usize].len == 0 {
+        if !self.is_valid_symbol(symbol) {
             return None;
         }
 
